@@ -55,6 +55,15 @@ PROPS = {
     "C11": dict(engine="e1", quick=8000, thorough=150000, level="exploration",
                 text="Conditional accumulation at several depths; accumulated() at random points of histories that make accumulating nodes backdate, be shallow/deep verified, partially reused or NEVER_CHANGE; the returned vector must equal the reference DFS order exactly.",
                 note="Reference DFS order transcribed from the documented order (own values, then callees in first-call order, each once)."),
+    "C12": dict(engine="e1", quick=10000, thorough=200000, level="exploration",
+                text="Seeded cyclic programs over a 4-bit set lattice with monotone q_fix/q_fixj members (nested, input-conditional cycles), all entry orders, histories that create/remove/reshape cycles; every value = least fixpoint computed by Kleene iteration in the reference.",
+                note="Monotonicity and input-only call-graph shape are enforced by a taint discipline in the generator and re-checked by Program::valid."),
+    "C14": dict(engine="e1", quick=10000, thorough=200000, level="exploration",
+                text="Cyclic programs whose block mixes functions without recovery and q_fix; per request: a cycle panic is required on a fresh database when the from-scratch DFS re-enters a non-recovering function, allowed whenever such a function lies on a reachable cycle, otherwise the least-fixpoint value is required; after a panic the same revision may report PropagatedPanic for poisoned heads; later revisions and unrelated nodes = reference. (single-thread part; the multi-thread part runs on E3)",
+                note="Hang detection single-threaded = the run returns; cross-thread part pending E3."),
+    "C15": dict(engine="e1", quick=6000, thorough=100000, level="exploration",
+                text="Fixpoint programs with an input-guarded non-monotone step: guard on => the request ends in the bounded 'too many cycle iterations' panic or converges, never exceeding iteration 200; unrelated nodes = reference; after the guard is switched off the same nodes = least fixpoint in later revisions.",
+                note="Values returned while the guard is on are not compared (order-dependent for non-monotone systems)."),
 }
 
 COMPONENTS = {
